@@ -997,7 +997,7 @@ class Interp:
                     fin.extend(self.exec_block(st.orelse, s, rel))
                 return results + fin
             return results + [(s, None) for s in cur]
-        fams = self.families(it)
+        fams = self.families(self._inner_view(it, state))
         if fams is None:
             raise _Unmodelled(f"for loop over {it!r} at {core.loc(rel, st)}")
         # summarised iteration: body interpreted once per family with binder symbols
@@ -1100,6 +1100,19 @@ class Interp:
                 return None
             return [TupleV([Lin(it.start + i), x]) for i, x in enumerate(inner)]
         return None
+
+    @staticmethod
+    def _inner_view(it: Any, state: State) -> Any:
+        """A list made INSIDE a summarised iteration carries that iteration's loop symbols in its segments.  Iterating it there is
+        still the same iteration: those symbols are not loop variables of the inner loop (counting them again would multiply the
+        trip count by the outer one), and the elements keep referring to them."""
+        if not isinstance(it, ListV) or not state.binders or it.unknown:
+            return it
+        active = {b.name for b, _ in state.binders}
+        if not any(b.name in active for sg in it.segs for b, _ in sg.binders):
+            return it
+        return ListV([Seg(sg.elem, tuple((b, n) for b, n in sg.binders if b.name not in active)) for sg in it.segs],
+                     it.unknown, list(it.stores), it.alloc_len, it.alloc_elem, it.unordered)
 
     def families(self, it: Any) -> Optional[List[Tuple[Any, List[Tuple[Sym, int]]]]]:
         it = self.settle(it)
@@ -1556,7 +1569,7 @@ class Interp:
                     self.assign(g.target, item, state, rel)
                     out.segs.append(Seg(self.eval(e.elt, state, rel), state.binders))
                 return out
-            fams = self.families(it)
+            fams = self.families(self._inner_view(it, state))
             if fams is None:
                 return Unknown(f"comprehension over {it!r}")
             for elem, binders in fams:
@@ -1596,7 +1609,7 @@ class Interp:
                     if not rec(gi + 1):
                         return False
                 return True
-            fams = self.families(it)
+            fams = self.families(self._inner_view(it, state))
             if fams is None:
                 return False
             for elem, binders in fams:
